@@ -498,7 +498,7 @@ def _fbd_gen(rng):
     return d
 
 
-FBD = Unit('C05', FB + 'bindown', _fbd_params, pre=_fbd_pre, post=_fbd_post, invariants={0: _fbd_inv}, native_obj=_fbd_obj, native_call=_fbd_native, gen=_fbd_gen, history_fixed=('B', 'g', 'w'),
+FBD = Unit(['C05', 'C17'], FB + 'bindown', _fbd_params, pre=_fbd_pre, post=_fbd_post, invariants={0: _fbd_inv}, native_obj=_fbd_obj, native_call=_fbd_native, gen=_fbd_gen, history_fixed=('B', 'g', 'w'),
            cases=[{'errors': e, 'widths': w, 'dim': dm} for e in (False, True) for w in ('given', 'derived') for dm in (1, 2)],
            bounds=[dict(N=2, B=1, M=1)], safety=('index', 'sorted'), timeout_ms=30000, short='FluxBinner.bindown',
            doc='1-D spectra and 2-D stacks of spectra (spectral axis last), native widths given (any order of the native points) or derived from an ascending grid by compute_bin_edges (by contract), with and without errors: for every target bin the mean of the native values in the searchsorted window '
